@@ -19,7 +19,11 @@ D2 == Lists(Mid, 2) \cup Maps({<<98>>, <<97, 97>>, <<99>>}, Mid, 2)
 D3 == Maps(KeysFull, ScalarsTiny, 2) \cup Maps(KeysSmall, ScalarsSmall, 2)
       \cup {ListV(<<x>>) : x \in D2} \cup {MapV(<<<<120>>>>, <<x>>) : x \in D2}
 
-ValueSet == CASE Domain = "D1" -> D1 [] Domain = "D2" -> D2 [] Domain = "D3" -> D3
+\* thorough tier: every pair of full-range scalars, three-key maps over the full key set, one more level of nesting
+D4 == Lists(ScalarsFull, 2) \cup Maps(KeysFull, ScalarsTiny, 3)
+      \cup {ListV(<<MapV(<<<<121>>>>, <<x>>)>>) : x \in D2}
+
+ValueSet == CASE Domain = "D1" -> D1 [] Domain = "D2" -> D2 [] Domain = "D3" -> D3 [] Domain = "D4" -> D4
               [] Domain = "all" -> D1 \cup D2 \cup D3
 
 \* cheap structural hash for sharding
